@@ -185,11 +185,13 @@ pub enum Op {
     /// from_closure whose closure panics at enabled position p (injected fault in user code)
     ClosurePanic(usize, usize),
     TransformPanic(usize, usize),
+    /// clone h, change exactly slot p of the clone: `==` must turn false; restore it: true again
+    EqProbe(usize, usize, u64),
 }
 
 pub const OP_KINDS: &[&str] = &[
     "new", "filled", "default", "from_closure", "transform", "clone", "drop", "set", "modify", "replace", "get",
-    "idx_disabled", "idxmut_disabled", "all", "all_ok", "eq", "closure_panic", "transform_panic",
+    "idx_disabled", "idxmut_disabled", "all", "all_ok", "eq", "closure_panic", "transform_panic", "eq_probe",
 ];
 
 impl Op {
@@ -213,6 +215,7 @@ impl Op {
             Op::Eq(..) => 15,
             Op::ClosurePanic(..) => 16,
             Op::TransformPanic(..) => 17,
+            Op::EqProbe(..) => 18,
         }
     }
     pub fn line(&self) -> String {
@@ -221,7 +224,7 @@ impl Op {
             Op::New(h, b) | Op::Filled(h, b) | Op::FromClosure(h, b) => format!("{} {} {}", n, h, b),
             Op::Default(h) | Op::Clone(h) | Op::Drop(h) => format!("{} {}", n, h),
             Op::Transform(h, s, add) => format!("{} {} {} {}", n, h, s, *add as u8),
-            Op::Set(h, p, v) | Op::Modify(h, p, v) | Op::Replace(h, p, v) => format!("{} {} {} {}", n, h, p, v),
+            Op::Set(h, p, v) | Op::Modify(h, p, v) | Op::Replace(h, p, v) | Op::EqProbe(h, p, v) => format!("{} {} {} {}", n, h, p, v),
             Op::Get(h, p) | Op::IdxDisabled(h, p) | Op::ClosurePanic(h, p) | Op::TransformPanic(h, p) => format!("{} {} {}", n, h, p),
             Op::IdxMutDisabled(h, d, v) => format!("{} {} {} {}", n, h, d, v),
             Op::All(h, m, how) | Op::AllOk(h, m, how) => format!("{} {} {} {}", n, h, m, how),
@@ -256,6 +259,7 @@ impl Op {
             "eq" => Op::Eq(us(1)?, us(2)?),
             "closure_panic" => Op::ClosurePanic(us(1)?, us(2)?),
             "transform_panic" => Op::TransformPanic(us(1)?, us(2)?),
+            "eq_probe" => Op::EqProbe(us(1)?, us(2)?, num(3)?),
             other => return Err(format!("unknown op {:?}", other)),
         })
     }
@@ -269,7 +273,8 @@ pub const NAMES: &[&str] = &[
     "probe_write_then_read_other_key", "probe_write_same_key_twice", "probe_disabled_after_writes",
     "probe_err_in_first_and_later_slot", "probe_err_only_in_last_slot", "probe_none_only_in_last_slot",
     "probe_none_only_in_first_slot", "probe_all_none_free", "probe_all_ok_err_free", "probe_transform_after_writes",
-    "probe_clone_then_diverge", "probe_eq_true", "probe_eq_false", "probe_multiple_err_planted",
+    "probe_clone_then_diverge", "probe_eq_true", "probe_eq_false", "probe_multiple_err_planted", "op_eq_probe",
+    "probe_planted_beyond_slot_64",
 ];
 const F_DISABLED: usize = 18;
 const F_NONE: usize = 19;
@@ -289,6 +294,8 @@ const P_CLONE_DIVERGE: usize = 32;
 const P_EQ_TRUE: usize = 33;
 const P_EQ_FALSE: usize = 34;
 const P_MULTI_ERR: usize = 35;
+const OP_EQ_PROBE: usize = 36;
+const P_BEYOND_64: usize = 37;
 
 pub struct Failure {
     pub oracle: &'static str,
@@ -387,7 +394,7 @@ impl<'a> Exec<'a> {
             self.steps += 1;
             self.trace.u(op.kind() as u64);
             if let Some(st) = stats.as_deref_mut() {
-                st.hit(op.kind());
+                st.hit(if op.kind() == 18 { OP_EQ_PROBE } else { op.kind() });
             }
             let fail = |oracle: &'static str, e: String, o: String| Failure { oracle, step, op: Some(op.clone()), expected: e, observed: o };
             let nslots = slots.len();
@@ -572,6 +579,11 @@ impl<'a> Exec<'a> {
                     let i = hh(*h);
                     let s = &slots[i];
                     let planted: Vec<usize> = planted_slots(*mask, n);
+                    if let Some(st) = stats.as_deref_mut() {
+                        if planted.iter().any(|p| *p >= 64) {
+                            st.hit(P_BEYOND_64);
+                        }
+                    }
                     let slots_in: Vec<Option<Val>> = s.model.iter().enumerate().map(|(p, v)| if planted.binary_search(&p).is_ok() { None } else { Some(v.clone()) }).collect();
                     if let Some(st) = stats.as_deref_mut() {
                         st.add(F_NONE, planted.len() as u64);
@@ -663,6 +675,31 @@ impl<'a> Exec<'a> {
                         if ha != hb {
                             return Err(fail("hash", "equal hashes for equal tables".into(), format!("{:x} vs {:x}", ha, hb)));
                         }
+                    }
+                }
+                Op::EqProbe(h, p, v) => {
+                    if n > 0 {
+                        let i = hh(*h);
+                        let p = *p % n;
+                        let s = &slots[i];
+                        let orig = s.model[p].clone();
+                        let newv = if Val(*v) == orig { Val(v.wrapping_add(1)) } else { Val(*v) };
+                        let mut tmp = catch(|| s.real.dup()).map_err(|m| fail("panic", "no panic".into(), m))?;
+                        catch(|| tmp.set(p, newv.clone())).map_err(|m| fail("panic", "no panic".into(), m))?;
+                        let (a, b) = catch(|| (s.real.eq_dyn(&*tmp), tmp.eq_dyn(&*s.real))).map_err(|m| fail("panic", "no panic".into(), m))?;
+                        self.note(|| format!("{} (key #{}) -> differing: {} {}", op.line(), p, a, b));
+                        if a || b {
+                            return Err(fail("eq", format!("tables differing only in slot #{} compare unequal", p), "equal".into()));
+                        }
+                        catch(|| tmp.set(p, orig.clone())).map_err(|m| fail("panic", "no panic".into(), m))?;
+                        let (a, b) = catch(|| (s.real.eq_dyn(&*tmp), tmp.eq_dyn(&*s.real))).map_err(|m| fail("panic", "no panic".into(), m))?;
+                        if !(a && b) {
+                            return Err(fail("eq", "tables with identical slots compare equal".into(), "unequal".into()));
+                        }
+                        if s.real.hash64() != tmp.hash64() {
+                            return Err(fail("hash", "equal hashes for equal tables".into(), "different".into()));
+                        }
+                        self.nontrivial = true;
                     }
                 }
                 Op::ClosurePanic(_h, p) | Op::TransformPanic(_h, p) => {
@@ -767,6 +804,7 @@ pub fn gen_ops(rng: &mut Rng, n: usize, nd: usize) -> Vec<Op> {
             if allow_clone { 4 } else { 1 },
             if allow_closure_panic { 2 } else { 0 },
             if allow_closure_panic { 2 } else { 0 },
+            if allow_clone { 4 } else { 1 }, // eq_probe
         ];
         let kind = rng.weighted(&w);
         let p = if n > 0 { rng.usize_below(n) } else { 0 };
@@ -808,7 +846,8 @@ pub fn gen_ops(rng: &mut Rng, n: usize, nd: usize) -> Vec<Op> {
             14 => Op::AllOk(h, mask, how),
             15 => Op::Eq(h, rng.usize_below(MAX_TABLES)),
             16 => Op::ClosurePanic(h, p),
-            _ => Op::TransformPanic(h, p),
+            17 => Op::TransformPanic(h, p),
+            _ => Op::EqProbe(h, p, fresh(1)),
         };
         ops.push(op);
     }
@@ -918,11 +957,11 @@ pub fn main(cases: &'static [Case]) -> ! {
         for o in &ops {
             // state measure: (enum, op kind, key) tuples
             let key = match o {
-                Op::Set(_, p, _) | Op::Modify(_, p, _) | Op::Replace(_, p, _) | Op::Get(_, p) => (*p % case.n.max(1)) as u64,
-                Op::IdxDisabled(_, d) | Op::IdxMutDisabled(_, d, _) => 100 + (*d % case.n_disabled.max(1)) as u64,
-                _ => 255,
+                Op::Set(_, p, _) | Op::Modify(_, p, _) | Op::Replace(_, p, _) | Op::Get(_, p) | Op::EqProbe(_, p, _) => (*p % case.n.max(1)) as u64,
+                Op::IdxDisabled(_, d) | Op::IdxMutDisabled(_, d, _) => 10_000 + (*d % case.n_disabled.max(1)) as u64,
+                _ => 65_535,
             };
-            st.cover.insert(((ci as u64) << 24) | ((o.kind() as u64) << 8) | key);
+            st.cover.insert(((ci as u64) << 32) | ((o.kind() as u64) << 16) | key);
         }
         if keep {
             st.samples.push(
